@@ -267,6 +267,7 @@ func genC02(ctx *Ctx) {
 	concurrentReprepare(ctx, r, &tag)
 	// (f) the same, with the schedule forced: connection A's writer is stalled while B re-prepares
 	forcedReprepareSchedule(ctx, &tag)
+	forcedSharedRequestSchedule(ctx, &tag)
 }
 
 type waitReq struct {
@@ -345,6 +346,72 @@ func forcedReprepareSchedule(ctx *Ctx, tag *int) {
 		_ = connB.Close()
 		cancel()
 		emitEcho(ctx, []echoResult{res}, "forced-schedule:shared-prepare-frame", false)
+	}
+}
+
+// forcedSharedRequestSchedule: one request object is queued on two backend connections (what happens when a request
+// still waiting in a slow connection's write queue is retried on another host); B has handed out more stream ids than
+// A, both writers are stalled while a few hundred such requests are queued on both, then both are released at once so
+// that the two writer goroutines encode the same requests at the same time.  Every answer, on either connection,
+// must be the one for the request it is delivered to.
+func forcedSharedRequestSchedule(ctx *Ctx, tag *int) {
+	prefix, port := px.Alloc()
+	be := fb.New(prefix, port)
+	if err := be.StartHost(1); err != nil {
+		panic(err)
+	}
+	be.SetTopology(1)
+	defer be.Shutdown()
+	for round := 0; round < ctx.Scale(6, 60); round++ {
+		*tag++
+		c, cancel := context.WithTimeout(context.Background(), 20*time.Second)
+		connect := func() *proxycore.ClientConn {
+			cl, err := proxycore.ConnectClient(c, proxycore.NewEndpoint(fmt.Sprintf("%s:%d", be.IP(1), be.Port)), proxycore.ClientConnConfig{})
+			if err != nil {
+				panic(err)
+			}
+			if _, err := cl.Handshake(c, primitive.ProtocolVersion4, nil); err != nil {
+				panic(err)
+			}
+			return cl
+		}
+		connA, connB := connect(), connect()
+		for i := 0; i < 7+round; i++ { // B is some allocations ahead of A
+			_, _ = connB.Query(c, primitive.ProtocolVersion4, &message.Query{Query: "SELECT v FROM ks.t WHERE k = 'warm'", Options: &message.QueryOptions{}})
+		}
+		relA, relB := proxycore.VerifStallWriter(connA), proxycore.VerifStallWriter(connB)
+		const n = 300
+		reqs := make([]*waitReq, n)
+		toks := make([]string, n)
+		for i := range reqs {
+			toks[i] = fmt.Sprintf("q%dx7x%d", *tag, i+1)
+			reqs[i] = newWaitReq(frame.NewFrame(primitive.ProtocolVersion4, 0, &message.Query{Query: "SELECT v FROM ks.t WHERE k = 'tok:" + toks[i] + "'", Options: &message.QueryOptions{}}))
+			_ = connA.Send(reqs[i])
+			_ = connB.Send(reqs[i])
+		}
+		var wg sync.WaitGroup
+		wg.Add(2)
+		go func() { defer wg.Done(); relA() }()
+		go func() { defer wg.Done(); relB() }()
+		wg.Wait()
+		var res []echoResult
+		for i, q := range reqs {
+			for k := 0; k < 2; k++ { // one answer per connection
+				x := echoResult{k, i + 1, toks[i], 2, "no-reply"}
+				select {
+				case raw := <-q.result:
+					x.verdict, x.got = classifyEcho(&px.Frame{Opcode: byte(raw.Header.OpCode), Body: raw.Body}, toks[i])
+				case <-q.closed:
+					x.verdict, x.got = 0, "connection-closed"
+				case <-time.After(5 * time.Second):
+				}
+				res = append(res, x)
+			}
+		}
+		_ = connA.Close()
+		_ = connB.Close()
+		cancel()
+		emitEcho(ctx, res, "forced-schedule:one-request-written-by-two-connections", false)
 	}
 }
 
